@@ -9,9 +9,17 @@ ASan/UBSan (harness/h_c14.c), every returned line compared byte for byte with th
 iterator dump (`ssdriver c14`).  Oracle on the implementation's own output: allocation size reported by the
 allocator = strlen + 1, strict JSON parse (Python `json` with NaN/Infinity/duplicate keys/control characters
 rejected, and the Lean recogniser), numeric comparison with what the iterators report.
+
+Round 2 (Props/C14Fmt.lean, tools/props/c14fmt.py): `%.3f` is no longer an observed parameter.  Model/Fmt3.lean renders a
+double's bit pattern exactly as glibc does, Model/Dbl.lean computes `start + (double)f / frate` and `(double)n / frate` as
+IEEE doubles, and the model instantiated with both (`resultJsonD`, driver `c14f`, with repair D80: a non-finite start
+offset is refused) must reproduce every returned line byte for byte from the iterator integers, the start offset's bit
+pattern and the `logmath_exp` values alone.  libc's snprintf and the machine's arithmetic are compared with the Lean
+definitions on thousands of structured bit patterns / triples per run (harness ops `fmt`, `arith`).
 """
 import concurrent.futures, json, math, os, re, time
 import vlib
+from props import c14fmt
 
 RAW = "tests/data/goforward.raw"
 NSAMP = 44580          # samples in goforward.raw (checked at run time)
@@ -30,7 +38,14 @@ SPECIAL = {
     "long": [b"L" + bytes((i * 37 + 11) % 255 + 1 for i in range(300)).replace(b" ", b"_").replace(b"\t", b"_")
              .replace(b"\n", b"_").replace(b"\r", b"_").replace(b"(", b"<").replace(b")", b">") + b"X"],
 }
-STARTS = ["0", "0.5", "1.25", "1234.5678", "1000000.001", "-3.25", "0.0001", "31536000", "1e15", "0.0004999", "2.0005"]
+STARTS = ["0", "0.5", "1.25", "1234.5678", "1000000.001", "-3.25", "0.0001", "31536000", "1e15", "0.0004999", "2.0005",
+          "x8000000000000000", "-0.0001", "0.0625", "2.1875", "-0.4375", "1e300", "-1e22", "1.7976931348623157e308",
+          "x0000000000000001", "4503599627370495.5", "99.9995", "0.0005"]
+# start offsets that are not numbers (repair D80: refused with NULL)
+NONFINITE = ["x7ff0000000000000", "xfff0000000000000", "x7ff8000000000000", "xfff8000000000000", "x7ff0000000000001"]
+# offsets with ~300 integer digits: used at level 0 only (the model's byte-list memory is quadratic in the line length)
+HUGE = {"1e300", "1.7976931348623157e308"}
+KEY_D80 = "D80-nonfinite-start-offset"     # a label in replays only: the defect is repaired, a recurrence is a plain violation
 FRATES = [1, 3, 7, 50, 100, 125, 1000, 16000]
 
 
@@ -58,7 +73,8 @@ def json_ops(rng, tier, stats, init_frate, n):
     ops = []
     combos = [(l, "0", None) for l in (0, 1, 2)]
     for _ in range(n):
-        combos.append((rng.choice([0, 1, 2]), rng.choice(STARTS), rng.choice(FRATES) if rng.chance(0.5) else None))
+        level, start = rng.choice([0, 1, 2]), rng.choice(STARTS)
+        combos.append((0 if start in HUGE else level, start, rng.choice(FRATES) if rng.chance(0.5) else None))
     for level, start, fr in combos:
         if fr is not None and fr != init_frate:
             ops += [f"frate {fr}", f"json {start} {level}", f"frate {init_frate}"]
@@ -252,7 +268,7 @@ def length_scenarios(rng, tier, stats):
 
 def gen_scenario(rng, tier, stats, kind=None):
     kind = kind or rng.weighted([("jsgf", 3), ("align-special", 5), ("fsg-special", 4), ("noise", 2), ("lead-null", 2),
-                                 ("empty-align", 2), ("no-grammar", 1), ("short", 1)])
+                                 ("empty-align", 2), ("no-grammar", 1), ("short", 1), ("nonfinite-start", 1)])
     stats["kinds"][kind] = stats["kinds"].get(kind, 0) + 1
     init_frate = rng.weighted([(100, 6), (50, 1), (125, 1)])
     bestpath = rng.choice(["yes", "no"])
@@ -311,6 +327,18 @@ def gen_scenario(rng, tier, stats, kind=None):
     elif kind == "empty-align":
         ops.append("align " + hx(b"go forward ten meters"))
         audio = rng.choice(["speech", "none"])
+    elif kind == "nonfinite-start":
+        # a start offset that is not a finite number, on empty, partial and final results, all levels
+        ops.append("align " + hx(b"go forward ten meters"))
+        cut = rng.range(12000, 30000)
+        ops += ["start", f"json {rng.choice(NONFINITE)} 0", f"raw {vlib.REPO / RAW} 0 {cut} 2048"]
+        ops += [f"json {x} {l}" for x in NONFINITE[:2] for l in (0, 1, 2)]
+        ops += [f"raw {vlib.REPO / RAW} {cut} {NSAMP - cut} 2048", "end"]
+        ops += [f"json {rng.choice(NONFINITE)} {l}" for l in (0, 1, 2)] + [f"json {rng.choice(STARTS[:11])} 1"]
+        for l in (0, 1, 2):
+            stats["levels"][l] = stats["levels"].get(l, 0) + 4
+        stats["audio"]["speech"] = stats["audio"].get("speech", 0) + 1
+        return {"kind": kind, "ops": ops, "words": []}
     elif kind == "no-grammar":
         ops += json_ops(rng, tier, stats, init_frate, 1)
         stats["audio"]["none"] = stats["audio"].get("none", 0) + 1
@@ -459,13 +487,16 @@ def check_record(pairs, want_keys, b, dur, p, t, where, errs, table, kb, kd, kp)
 def oracle(d, words_utf8):
     """list of violations of the property by this call; also the Num -> text table for the model"""
     errs, table = [], {}
-    want_null = d.level != 0 and d.al is None
+    nonfinite = not math.isfinite(d.start)
+    want_null = (d.level != 0 and d.al is None) or nonfinite
     if d.ret == "null":
         if not want_null:
             errs.append("returned NULL although " + ("no alignment was requested" if d.level == 0 else "an alignment exists"))
         return errs, table
-    if want_null:
+    if want_null and not nonfinite:
         errs.append("returned a line although an alignment was requested and the alignment interface reports none")
+    if nonfinite:
+        errs.append(f"returned a line for the start offset {d.start!r}, which no JSON number can express")
     if d.alloc != d.len + 1:
         errs.append(f"allocated {d.alloc} bytes for a text of {d.len} bytes + NUL")
     if not d.text.endswith(b"}\n"):
@@ -625,6 +656,7 @@ def evaluate(sc, rc, out, err):
             if rc == 0:
                 findings.append({"what": f"unparsable dump line: {e}", "line": l[:300], "machinery": True})
             continue
+        d.bits = c14fmt.parse_bits(l)
         errs, table = oracle(d, words_utf8)
         if d.ret == "null":
             cnt["null_returns"] += 1
@@ -640,6 +672,7 @@ def evaluate(sc, rc, out, err):
             cnt["lines_fillers_only"] += d.level == 0 and d.hyp is None and len(d.segs) > 0
         if errs:
             findings.append({"what": "; ".join(errs[:6]), "call": f"json start={d.start!r} level={d.level} frate={d.frate}",
+                             "nonfinite_start": not math.isfinite(d.start),
                              "returned": None if d.text is None else d.text.decode("latin-1")[:2000]})
         py_render(d, table)
         cases.append((d, table))
@@ -654,6 +687,9 @@ def evaluate(sc, rc, out, err):
 
 def model_compare(cases):
     """implementation line vs the model's line for the same dump; returns list of divergences"""
+    # calls with a non-finite start offset are outside the older model (it does not look at the value of `start`);
+    # they are compared with the model of the repaired function by c14fmt.line_compare
+    cases = [(d, t) for d, t in cases if math.isfinite(d.start)]
     if not cases:
         return [], 0
     text = "\n".join(driver_line(d, t) for d, t in cases) + "\n"
@@ -702,6 +738,8 @@ def signature(f):
         m = re.search(r"(Assertion `[^']*'|(?:heap|stack|global)-[a-z-]+|SEGV|runtime error: [a-z ]+| in [A-Za-z_0-9]+$)", f["what"])
         fn = re.search(r" in ([A-Za-z_0-9]+)\s*$", f["what"])
         return "crash:" + (m.group(1) if m else "") + ":" + (fn.group(1) if fn else "")
+    if f.get("nonfinite_start"):
+        return "prop:nonfinite-start"
     return "prop:" + re.split(r"[:;]", f["what"])[0][:40]
 
 
@@ -724,6 +762,10 @@ def judge(c, binp, sc, label, totals):
     for k, v in cnt.items():
         totals[k] = max(totals.get(k, 0), v) if k == "max_len" else totals.get(k, 0) + v
     div, ncmp = model_compare(cases)
+    div3, _, st3 = c14fmt.line_compare(cases, driver_line, unhex)
+    div = div + div3
+    for k, v in st3.items():
+        totals[k] = totals.get(k, 0) + v
     totals["model_comparisons"] = totals.get("model_comparisons", 0) + ncmp
     mach = [f for f in findings if f.get("machinery")]
     real = [f for f in findings if not f.get("machinery")]
@@ -738,9 +780,29 @@ def judge(c, binp, sc, label, totals):
         c.oblige(f"oracle on the implementation's output ({label})", False, f2[0]["what"])
         c.violation({"kind": "decoder_result_json scenario", "scenario_kind": sc["kind"], "ops": small["ops"],
                      "words": small.get("words", []), "violations": f2[:5], "exit_code": rc2,
+                     "label": KEY_D80 + " (regression of repair D80)" if all(x.get("nonfinite_start") for x in f2) else None,
                      "how_to_rerun": "python3 tools/check.py C14 --replay <this file>"}, True)
         return False
     if div:
+        # shrink: drop ops while some divergence (either model) remains and every harness op still succeeds
+        head, body = sc["ops"][:1], sc["ops"][1:]
+
+        def diverges(sub):
+            s2 = dict(sc, ops=head + sub)
+            rc2, out2, err2 = run_scenario(binp, s2, timeout=120)
+            f2, cases2, _ = evaluate(s2, rc2, out2, err2)
+            if f2:
+                return False
+            return bool(model_compare(cases2)[0] or c14fmt.line_compare(cases2, driver_line, unhex)[0])
+        try:
+            small_ops = head + vlib.ddmin(body, diverges, max_tests=20)
+            rc2, out2, err2 = run_scenario(binp, dict(sc, ops=small_ops))
+            _, cases2, _ = evaluate(dict(sc, ops=small_ops), rc2, out2, err2)
+            div2 = model_compare(cases2)[0] + c14fmt.line_compare(cases2, driver_line, unhex)[0]
+            if div2:
+                sc, div = dict(sc, ops=small_ops), div2
+        except Exception:
+            pass
         c.oblige(f"correspondence model = implementation ({label})", False, div[0])
         c.violation({"kind": "model/implementation divergence without a property violation by the oracle",
                      "scenario_kind": sc["kind"], "ops": sc["ops"], "words": sc.get("words", []), "divergences": div[:5],
@@ -753,15 +815,21 @@ def setup(c):
     global GOFORWARD_GRAM, NSAMP
     GOFORWARD_GRAM = (vlib.REPO / "tests/data/goforward.gram").read_bytes()
     NSAMP = (vlib.REPO / RAW).stat().st_size // 2
-    c.trusted += ["libc snprintf: the dry run and the writing run format the same arguments the same way (Fmt.numLen_eq); "
-                  "%.3f of a finite double in the C locale is a JSON number (NumOK, needed for validity only)",
+    c.trusted += ["libc snprintf(\"%.3f\") = Model/Fmt3.lean (fmtBits/lenBits) and the machine's double division/addition = "
+                  "Model/Dbl.lean: no longer assumed laws but definitions with theorems (Props/C14Fmt.lean), tied to the real libc / "
+                  "FPU on every run by exact comparison on thousands of structured bit patterns and on every number of every "
+                  "returned line; trusted is that the tie's sample is representative of glibc's printf_fp and SSE2 arithmetic",
+                  "logmath_exp (libm pow) is a parameter: its value is read through the public interface, only its finiteness matters for validity and is evaluated on every call",
                   "tools/gen_consts.py (HYP_FORMAT extraction)",
                   "harness/h_c14.c + tools/props/c14.py (scenario generator, dump parser, oracle, diff)",
                   "clang ASan/UBSan as observer of stores outside the JSON buffer; __sanitizer_get_allocated_size as the exact requested size (self-tested each run)",
                   "Python json module as second strict JSON parser"]
-    c.assumptions += ["frame rate > 0 and a finite start offset (otherwise %.3f prints inf/nan, not JSON)",
+    c.assumptions += ["frame rate >= 1 (fe_init refuses anything else; a frame rate of 0 written into the configuration of a live decoder "
+                      "makes (double)n / frate infinite or NaN); a non-finite start offset is refused with NULL (repair D80)",
                       "non-ASCII bytes are copied verbatim: the line is syntactically valid for every spelling and valid UTF-8 iff the spellings are",
-                      "decimal rendering itself is libc's: checked numerically on the implementation (|value - iterator value| <= 0.0005), not proved",
+                      "decimal rendering: proved for the Lean rendering fmt3 (JSON number, within 1/2000 of the exact binary value, "
+                      "ties to even, monotone, dry-run count = length) and compared as text with libc; the independent numeric oracle "
+                      "(|value - iterator value| <= 0.0005) is kept",
                       "an alignment with zero words is installed through the public structs (decoder_alignment itself returns NULL for it after repair D27)"]
 
 
@@ -786,13 +854,15 @@ def check(c):
         ok_all &= judge(c, binp, sc, f"corpus {f.name}", totals)
     n = 34 if c.tier == "quick" else 2000
     # every kind at least once, then random
-    kinds = ["jsgf", "align-special", "fsg-special", "noise", "lead-null", "empty-align", "no-grammar", "short"]
+    kinds = ["jsgf", "align-special", "fsg-special", "noise", "lead-null", "empty-align", "no-grammar", "short",
+             "nonfinite-start"]
     scs = length_scenarios(c.rng, c.tier, stats)
     n_len = len(scs)
     scs += [gen_scenario(c.rng, c.tier, stats, kind=kinds[i] if i < len(kinds) else None) for i in range(n)]
     for i, sc in enumerate(scs[:3]):
         c.samples.append({"kind": sc["kind"], "ops": [o[:120] for o in sc["ops"][:12]] + ["..."]})
     distinct = set()
+    seen_bits = set()
     nviol = 0
     branches = {"level 0, no segments": 0, "level 0, segments": 0, "alignment NULL -> NULL": 0,
                 "alignment with zero words": 0, "alignment with words": 0, "state lists (level 2)": 0,
@@ -806,8 +876,15 @@ def check(c):
         def work(sc):
             rc, out, err = run_scenario(binp, sc)
             findings, cases, cnt = evaluate(sc, rc, out, err)
-            div, ncmp = model_compare(cases) if lean_ok else ([], 0)
-            return findings, cases, cnt, div, ncmp
+            if lean_ok:       # the two model drivers side by side
+                with concurrent.futures.ThreadPoolExecutor(max_workers=2) as ex2:
+                    f1 = ex2.submit(model_compare, cases)
+                    f3 = ex2.submit(c14fmt.line_compare, cases, driver_line, unhex)
+                    (div, ncmp), (div3, _, st3) = f1.result(), f3.result()
+            else:
+                div, ncmp, div3, st3 = [], 0, [], {}
+            cnt.update(st3)
+            return findings, cases, cnt, div + div3, ncmp
         with concurrent.futures.ThreadPoolExecutor(max_workers=workers) as ex:
             futs = {ex.submit(work, sc): sc for sc in chunk}
             results = {id(futs[f]): f.result() for f in concurrent.futures.as_completed(futs)}
@@ -826,6 +903,7 @@ def check(c):
             totals["model_comparisons"] = totals.get("model_comparisons", 0) + ncmp
             for d, _ in cases:
                 distinct.add((d.text, d.level, d.frate))
+                seen_bits.update((d.bits or {}).values())
                 if d.ret == "ok":
                     esc_hit["hypothesis string"].add(esc_len(d.hyp or b""))
                     if d.level == 0:
@@ -846,6 +924,32 @@ def check(c):
                         branches["phone without states (level 2)"] += any(not p["kids"] for w in d.al for p in w["kids"])
         if nviol >= 12:
             break
+    # the %.3f rendering itself: libc's snprintf against Model/Fmt3 on structured bit patterns and on every double that
+    # occurred in a real result of this run
+    pats, pat_classes = c14fmt.gen_patterns(c.rng, c.tier, sorted(seen_bits))
+    fbad, fn = c14fmt.pattern_tie(binp, pats, run_scenario) if lean_ok else ([], 0)
+    c.oblige("correspondence: snprintf(\"%.3f\") of the C library (count of the dry run, text) = lenBits / fmtBits of "
+             f"Model/Fmt3.lean on {fn} bit patterns", lean_ok and not fbad and fn > 0, fbad[:3])
+    if fbad:
+        c.violation({"kind": "fmt", "what": "libc %.3f differs from the Lean rendering", "mismatches": fbad[:10],
+                     "ops": [f"fmt {m['bits']}" for m in fbad[:10] if "bits" in m],
+                     "how_to_rerun": "python3 tools/check.py C14 --replay <this file>"}, False, tag="fmt")
+    triples = c14fmt.gen_arith(c.rng, c.tier, pats)
+    abad, an = c14fmt.arith_tie(binp, triples, run_scenario) if lean_ok else ([], 0)
+    c.oblige("correspondence: the machine's (double)f / frate and start + (double)f / frate (same C expressions, same compiler "
+             f"flags) = divInt / timeBits of Model/Dbl.lean on {an} (start, f, frate) triples", lean_ok and not abad and an > 0,
+             abad[:3])
+    if abad:
+        c.violation({"kind": "arith", "what": "machine double arithmetic differs from the Lean IEEE model", "mismatches": abad[:10],
+                     "ops": [f"arith {m['start_bits']} {m['f']} {m['frate']}" for m in abad[:10] if "start_bits" in m],
+                     "how_to_rerun": "python3 tools/check.py C14 --replay <this file>"}, False, tag="arith")
+    c.oblige("hypothesis of C14_result_json_valid_D80 evaluated: for every call on the real decoder that returned a line, every "
+             "double in `args r level` (start, computed times and durations, logmath_exp values) was finite (driver field fin=1)", totals.get("fmt3_calls_with_nonfinite_argument", 0) == 0,
+             {"calls_with_nonfinite_argument": totals.get("fmt3_calls_with_nonfinite_argument", 0)})
+    c.oblige("hypothesis of C14_result_json_valid_every_offset evaluated (argOK on args r level): for every call that returned a "
+             "line the frame rate was >= 1, every frame number/count a C int and every logmath_exp value finite (driver field argok=1)",
+             totals.get("fmt3_calls_argok_false", 0) == 0 and totals.get("fmt3_line_comparisons", 0) > 0,
+             {"calls_with_argok_false": totals.get("fmt3_calls_argok_false", 0)})
     c.oblige("oracle: every line returned by the real decoder_result_json (ASan/UBSan, asserts on) is one valid JSON object + "
              "newline, allocation = strlen + 1, and carries the iterators' words/times/probabilities", ok_all)
     c.oblige("correspondence: the implementation's line and allocation equal the model's for every dumped result", ok_all and lean_ok)
@@ -858,6 +962,12 @@ def check(c):
                   "spelling_classes_used": stats["spelling_classes"], "null_returns": totals.get("null_returns", 0),
                   "lines_returned": totals.get("lines", 0), "longest_line": totals.get("max_len", 0),
                   "model_comparisons": totals.get("model_comparisons", 0),
+                  "fmt3": {"bit_patterns_rendered_by_libc_and_model": fn, "pattern_classes": pat_classes,
+                           "distinct_doubles_seen_in_real_results": len(seen_bits),
+                           "arith_triples_machine_vs_ieee_model": an,
+                           "line_comparisons_with_fmt3_model": totals.get("fmt3_line_comparisons", 0),
+                           "numbers_in_those_lines": totals.get("fmt3_numbers_in_lines", 0),
+                           "whole_millisecond_fields_printed_exactly": totals.get("exact_millisecond_fields_checked", 0)},
                   "line_content": {k: v for k, v in totals.items() if k.startswith("lines_")},
                   "start_offsets": STARTS, "frame_rate_overrides": FRATES,
                   "length_aimed_scenarios": n_len,
@@ -875,6 +985,18 @@ def replay(c, path):
     c.lean_obligations()
     binp = vlib.build_harness("h_c14")
     obj = json.loads(open(path).read())
+    if obj.get("kind") in ("fmt", "arith"):
+        # a bit pattern / (start, f, frate) triple on which libc / the FPU and the Lean definitions disagreed
+        if obj["kind"] == "fmt":
+            bad, n = c14fmt.pattern_tie(binp, [int(o.split()[1], 16) for o in obj["ops"]], run_scenario)
+        else:
+            bad, n = c14fmt.arith_tie(binp, [(int(o.split()[1], 16), int(o.split()[2]), int(o.split()[3])) for o in obj["ops"]],
+                                      run_scenario)
+        c.oblige(f"replayed {obj['kind']} cases: C library / machine arithmetic = Lean definitions", not bad and n > 0, bad[:3])
+        if bad:
+            c.violation(dict(obj, mismatches=bad[:10]), False, tag=obj["kind"])
+        c.cov.update({"evaluations": n, "distinct_nontrivial": n})
+        return
     sc = {"kind": obj.get("scenario_kind", "replay"), "ops": [o.replace("@REPO@", str(vlib.REPO)) for o in obj["ops"]],
           "words": obj.get("words", [])}
     totals = {}
